@@ -608,6 +608,7 @@ func propC05(c *Ctx) {
 	c.ruleJsightFirst() // the catalog's jsight version is only ever set by a JSIGHT directive, which must be there and first
 	c.ruleLoopsCoverAll("C05-LOOPS-COVER-ALL")
 	c.rulePathVerbatim("C05-PATH-VERBATIM")
+	c.ruleKindVisitedAll("C05-KIND-VISITED-ALL") // a reference in a directive that nobody looks at is not resolved
 	c.ruleLoopFlags("C05-LOOP-FLAG")
 }
 
@@ -1382,5 +1383,127 @@ func (c *Ctx) rulePathVerbatim(rule string) {
 	}
 	if n < 3 {
 		r.Undecided(rule, "sites", fmt.Sprintf("%d calls of the path parsers found", n), "")
+	}
+}
+
+// ---------- every directive of a kind is looked at ----------
+
+// ruleKindVisitedAll: a directive kind without a handler in the dispatch table is consumed by some other code that
+// compares Type() with it. If the only such code is a finder - a loop that returns the first element of that kind (the
+// Tags child of a method) - then a directive of the kind is looked at only when somebody searches for it and only if
+// it is the first: a second one, or one that nobody falls back to, is never checked, whatever it says.
+func (c *Ctx) ruleKindVisitedAll(rule string) {
+	r := c.R
+	r.Rule(rule, "every directive kind has a handler in the dispatch table, or is compared with (Type() == K, case K) by code that goes on after a match (a collector that visits every directive of the kind); a kind that is only ever searched for by a loop returning the first match is checked only where it is found: an undeclared name, a forbidden annotation or a missing parameter in any other directive of the kind is accepted", 25)
+	t := c.Tables()
+	reach := reachDecls(c.reachableLib(c.ssaRoots(buildRoots...), nil))
+	visitor, finder := map[string]string{}, map[string]string{}
+	for _, f := range c.libFns() {
+		if !reach[f.Obj] || f.Pkg.PkgPath == prog.ModulePath+"/directive" {
+			continue
+		}
+		pk := f.Pkg
+		inspectWithStack(f.Decl.Body, func(n ast.Node, stack []ast.Node) bool {
+			var kinds []string
+			switch x := n.(type) {
+			case *ast.CaseClause:
+				for _, e := range x.List {
+					if k := constObj(pk, e); k != nil && namedType(k.Type()) == prog.ModulePath+"/directive.Enumeration" {
+						kinds = append(kinds, k.Name())
+					}
+				}
+			case *ast.BinaryExpr:
+				if x.Op == token.EQL || x.Op == token.NEQ {
+					for _, e := range []ast.Expr{x.X, x.Y} {
+						if k := constObj(pk, e); k != nil && namedType(k.Type()) == prog.ModulePath+"/directive.Enumeration" {
+							kinds = append(kinds, k.Name())
+						}
+					}
+				}
+			case *ast.CallExpr:
+				if sel, ok := ast.Unparen(x.Fun).(*ast.SelectorExpr); ok && sel.Sel.Name == "String" {
+					if k := constObj(pk, sel.X); k != nil && namedType(k.Type()) == prog.ModulePath+"/directive.Enumeration" {
+						kinds = append(kinds, k.Name())
+					}
+				}
+			}
+			if len(kinds) == 0 {
+				return true
+			}
+			// a finder: inside a loop whose element is returned by the branch this comparison guards
+			isFinder := false
+			var loopVars []types.Object
+			for _, a := range stack {
+				if rs, ok := a.(*ast.RangeStmt); ok {
+					for _, e := range []ast.Expr{rs.Key, rs.Value} {
+						if id, ok := e.(*ast.Ident); ok && id.Name != "_" {
+							if o := pk.TypesInfo.Defs[id]; o != nil {
+								loopVars = append(loopVars, o)
+							}
+						}
+					}
+				}
+			}
+			if len(loopVars) > 0 {
+				var guarded ast.Node
+				for i := len(stack) - 1; i >= 0 && guarded == nil; i-- {
+					switch g := stack[i].(type) {
+					case *ast.IfStmt:
+						guarded = g.Body
+					case *ast.CaseClause:
+						guarded = g
+					}
+				}
+				if cc, ok := n.(*ast.CaseClause); ok {
+					guarded = cc
+				}
+				if guarded != nil {
+					ast.Inspect(guarded, func(m ast.Node) bool {
+						ret, ok := m.(*ast.ReturnStmt)
+						if !ok {
+							return true
+						}
+						for _, res := range ret.Results {
+							ast.Inspect(res, func(q ast.Node) bool {
+								if id, ok := q.(*ast.Ident); ok {
+									for _, lv := range loopVars {
+										if pk.TypesInfo.Uses[id] == lv {
+											isFinder = true
+										}
+									}
+								}
+								return true
+							})
+						}
+						return true
+					})
+				}
+			}
+			for _, k := range kinds {
+				if isFinder {
+					finder[k] = f.Name()
+				} else {
+					visitor[k] = f.Name()
+				}
+			}
+			return true
+		})
+	}
+	var names []string
+	for n := range t.Consts {
+		names = append(names, n)
+	}
+	sort.Strings(names)
+	for _, kind := range names {
+		switch {
+		case c.dispatchHandler(kind) != nil:
+			r.OkTrivial(rule, "kind "+kind, "handler in the dispatch table: every directive of the kind passes it", "")
+		case visitor[kind] != "":
+			r.Ok(rule, "kind "+kind, "visited by a collector that goes on after a match: "+visitor[kind], "")
+		case finder[kind] != "":
+			r.Bad(rule, "kind "+kind, "the only code that looks for this kind ("+finder[kind]+") returns the first match: a directive of the kind that is not the first, or that nobody searches for, is never checked - an undeclared name, an annotation or a missing parameter in it is accepted", "")
+		default:
+			r.Bad(rule, "kind "+kind, "no handler and no code branches on this kind", "")
+		}
 	}
 }
